@@ -1,5 +1,5 @@
-// Unit `gz`: src/lib.rs should_gzip (C16, C17) over the opaque `str` primitives; parse_qvalue is a callee contract
-// (its lexing of real strings is checked by the Kani unit K4, bounded).
+// Unit `gz`: src/lib.rs should_gzip and parse_qvalue (C16, C17) against RFC 7231 5.3.1 / 5.3.4 over the bytes of the
+// header value (the Kani unit K4 re-checks parse_qvalue on the real `str` code, bounded).
 #![feature(allocator_api)]
 use vstd::prelude::*;
 verus! {
@@ -14,28 +14,123 @@ use http::header;
 pub assume_specification<T>[ Option::<T>::or ](a: Option<T>, b: Option<T>) -> (r: Option<T>)
     ensures r == (if a is Some { a } else { b });
 
-/// RFC 7231 5.3.1 qvalue as thousandths (0..=1000); None = not a qvalue.  Callee contract of `parse_qvalue`.
-pub mod qv {
-    use vstd::prelude::*;
-    use crate::strs::Str;
-    pub uninterp spec fn sp_qvalue(s: Str) -> Option<u16>;
-    pub broadcast axiom fn qvalue_range(s: Str) ensures (#[trigger] sp_qvalue(s)) matches Some(q) ==> q <= 1000;
+// ---- RFC 7231 5.3.1 / 5.3.4 over the BYTES of the header value (written from the RFC and C16, not from the code) ----
+//   Accept-Encoding = #( codings [ weight ] )      weight = OWS ";" OWS "q=" qvalue
+//   qvalue = ( "0" [ "." 0*3DIGIT ] ) / ( "1" [ "." 0*3("0") ] )
+pub open spec fn scale(n: int) -> int { if n == 1 { 100 } else if n == 2 { 10 } else { 1 } }
+/// qvalue in thousandths (0..=1000); None = not a qvalue.
+pub open spec fn qvalue_rfc(s: Seq<u8>) -> Option<u16> {
+    if s.len() == 0 || s.len() > 5 || (s[0] != 0x30u8 && s[0] != 0x31u8) { None }
+    else if s.len() == 1 { Some(if s[0] == 0x31u8 { 1000u16 } else { 0u16 }) }
+    else if s[1] != 0x2eu8 { None }
+    else {
+        let f = s.subrange(2, s.len() as int);
+        if !(forall|i: int| 0 <= i < f.len() ==> is_digit(#[trigger] f[i])) { None }
+        else if s[0] == 0x31u8 { if forall|i: int| 0 <= i < f.len() ==> #[trigger] f[i] == 0x30u8 { Some(1000u16) } else { None } }
+        else { Some((dec(f) * scale(f.len() as int)) as u16) }
+    }
 }
-use qv::sp_qvalue;
-#[verifier::external_body]
-fn parse_qvalue(s: Str) -> (r: Result<u16, ()>)
-    ensures r.is_ok() == sp_qvalue(s).is_some(), r matches Ok(q) ==> Some(q) == sp_qvalue(s)
-{ unimplemented!() }
+/// What `parse_qvalue` accepts: every qvalue with its value, nothing else - except the sign the std integer parser
+/// tolerates (`0.+5`, `0.+55`; outside the grammar, where C16 demands nothing; spelled out so that the contract is total).
+pub open spec fn qv_lenient(s: Seq<u8>) -> Option<u16> {
+    match qvalue_rfc(s) {
+        Some(v) => Some(v),
+        None => if 4 <= s.len() <= 5 && s[0] == 0x30u8 && s[1] == 0x2eu8 && s[2] == 0x2bu8 && all_digits(s.subrange(3, s.len() as int)) {
+            Some((dec(s.subrange(3, s.len() as int)) * scale(s.len() - 2)) as u16)
+        } else { None },
+    }
+}
+pub proof fn lemma_dec_small(d: Seq<u8>)
+    requires d.len() <= 3, forall|i: int| 0 <= i < d.len() ==> is_digit(#[trigger] d[i])
+    ensures dec(d) <= 999, d.len() <= 2 ==> dec(d) <= 99, d.len() <= 1 ==> dec(d) <= 9,
+{
+    reveal_with_fuel(dec, 5);
+    if d.len() >= 1 { assert(is_digit(d[d.len() - 1])); let d1 = d.drop_last(); if d1.len() >= 1 { assert(d1[d1.len() - 1] == d[d.len() - 2]); assert(is_digit(d[d.len() - 2])); let d2 = d1.drop_last(); if d2.len() >= 1 { assert(d2[0] == d[0]); assert(is_digit(d[0])); assert(d2.drop_last().len() == 0); } } }
+}
+/// C16 (grammatical values): a qvalue is always accepted with its RFC value, and every accepted weight is within 0..=1000.
+pub proof fn lemma_qv_extends_rfc(s: Seq<u8>)
+    ensures /*@C16 #grammatical_qvalues_get_their_rfc_value*/ qvalue_rfc(s) matches Some(v) ==> qv_lenient(s) == Some(v) && v <= 1000,
+            qv_lenient(s) matches Some(v) ==> v <= 1000,
+{
+    if s.len() >= 2 && s.len() <= 5 {
+        let f = s.subrange(2, s.len() as int);
+        if forall|i: int| 0 <= i < f.len() ==> is_digit(#[trigger] f[i]) { lemma_dec_small(f); }
+        if s.len() >= 4 && all_digits(s.subrange(3, s.len() as int)) { lemma_dec_small(s.subrange(3, s.len() as int)); }
+    }
+}
 
-// ---- C16 oracle, written from the statement over the lexical primitives ----
-/// One list element: (coding, weight) or None if its weight is unparseable.
-pub open spec fn element(qi: Str) -> Option<(Str, u16)> {
-    match sp_split_once(qi, ';') {
-        None => Some((sp_trim(qi), 1000u16)),
-        Some((c, q)) => match sp_strip_prefix(sp_trim(q), "q="@) {
-            None => None,
-            Some(w) => match sp_qvalue(w) { None => None, Some(v) => Some((sp_trim(c), v)) },
-        },
+pub proof fn lemma_qv_shapes(s: Seq<u8>)
+    ensures
+        (s =~= seq![0x31u8] || s =~= seq![0x31u8, 0x2eu8] || s =~= seq![0x31u8, 0x2eu8, 0x30u8] || s =~= seq![0x31u8, 0x2eu8, 0x30u8, 0x30u8] || s =~= seq![0x31u8, 0x2eu8, 0x30u8, 0x30u8, 0x30u8]) ==> qv_lenient(s) == Some(1000u16),
+        (s =~= seq![0x30u8] || s =~= seq![0x30u8, 0x2eu8]) ==> qv_lenient(s) == Some(0u16),
+        (!(s =~= seq![0x31u8] || s =~= seq![0x31u8, 0x2eu8] || s =~= seq![0x31u8, 0x2eu8, 0x30u8] || s =~= seq![0x31u8, 0x2eu8, 0x30u8, 0x30u8] || s =~= seq![0x31u8, 0x2eu8, 0x30u8, 0x30u8, 0x30u8])
+            && !(s =~= seq![0x30u8]) && !(s.len() >= 2 && s[0] == 0x30u8 && s[1] == 0x2eu8)) ==> qv_lenient(s) is None,
+{
+    reveal_with_fuel(dec, 2);
+    if s.len() >= 2 && s.len() <= 5 && s[0] == 0x31u8 && s[1] == 0x2eu8 {
+        let f = s.subrange(2, s.len() as int);
+        if forall|i: int| 0 <= i < f.len() ==> #[trigger] f[i] == 0x30u8 {
+            if f.len() >= 1 { assert(f[0] == s[2]); } if f.len() >= 2 { assert(f[1] == s[3]); } if f.len() >= 3 { assert(f[2] == s[4]); }
+        }
+        if s =~= seq![0x31u8, 0x2eu8, 0x30u8] || s =~= seq![0x31u8, 0x2eu8, 0x30u8, 0x30u8] || s =~= seq![0x31u8, 0x2eu8, 0x30u8, 0x30u8, 0x30u8] {
+            assert forall|i: int| 0 <= i < f.len() implies #[trigger] f[i] == 0x30u8 by { assert(f[i] == s[i + 2]); }
+            assert forall|i: int| 0 <= i < f.len() implies is_digit(#[trigger] f[i]) by { assert(f[i] == s[i + 2]); }
+        }
+    }
+    if s =~= seq![0x30u8, 0x2eu8] { assert(s.subrange(2, 2).len() == 0); }
+}
+
+//@fn src/lib.rs :: fn parse_qvalue props=C16 implicit=C16 rules=R41,R19,R20,R7,STD
+fn parse_qvalue(s: Str) -> (r: Result<u16, ()>)
+    requires is_ascii(s.b()),
+    ensures /*@C16 #qvalue_per_rfc7231*/ r == (match qv_lenient(s.b()) { Some(v) => Ok::<u16, ()>(v), None => Err::<u16, ()>(()) }),
+//@body
+//@ at_start: proof { reveal_strlit("1"); reveal_strlit("1."); reveal_strlit("1.0"); reveal_strlit("1.00"); reveal_strlit("1.000"); reveal_strlit("0"); reveal_strlit("0."); lemma_qv_extends_rfc(s.b()); lemma_qv_shapes(s.b()); assert(lit("1"@) =~= seq![0x31u8]); assert(lit("1."@) =~= seq![0x31u8, 0x2eu8]); assert(lit("1.0"@) =~= seq![0x31u8, 0x2eu8, 0x30u8]); assert(lit("1.00"@) =~= seq![0x31u8, 0x2eu8, 0x30u8, 0x30u8]); assert(lit("1.000"@) =~= seq![0x31u8, 0x2eu8, 0x30u8, 0x30u8, 0x30u8]); assert(lit("0"@) =~= seq![0x30u8]); assert(lit("0."@) =~= seq![0x30u8, 0x2eu8]); if starts_with_b(s.b(), lit("0."@)) { assert(s.b().subrange(0, 2)[0] == s.b()[0]); assert(s.b().subrange(0, 2)[1] == s.b()[1]); } else if s.b().len() >= 2 && s.b()[0] == 0x30u8 && s.b()[1] == 0x2eu8 { assert(s.b().subrange(0, 2) =~= lit("0."@)); } }
+//@ before "let factor = match v.len() {": proof { let f = s.b().subrange(2, s.b().len() as int); assert(v.b() =~= f); if f.len() >= 1 && f[0] == 0x2bu8 { let g = f.subrange(1, f.len() as int); assert(g =~= s.b().subrange(3, s.b().len() as int)); if g.len() <= 3 && all_digits(g) { lemma_dec_small(g); } } else if f.len() <= 3 && all_digits(f) { lemma_dec_small(f); } }
+//@end
+
+// ---- C16 oracle, written from the statement over the bytes of the header value ----
+/// One list element (the text between two commas): (coding, weight), or None if its weight is not `q=` qvalue.
+pub open spec fn element_b(e: Seq<u8>) -> Option<(Seq<u8>, u16)> {
+    match first_at(e, 0, 0x3bu8) {
+        None => Some((trim_b(e, is_ows()), 1000u16)),
+        Some(p) => {
+            let w = trim_b(e.subrange(p + 1, e.len() as int), is_ows());
+            if starts_with_b(w, lit("q="@)) { match qv_lenient(w.subrange(2, w.len() as int)) { Some(v) => Some((trim_b(e.subrange(0, p), is_ows()), v)), None => None } } else { None }
+        }
+    }
+}
+pub open spec fn element(qi: Str) -> Option<(Str, u16)> { match element_b(qi.b()) { Some((c, w)) => Some((mk(c), w)), None => None } }
+/// On a header value (`HeaderValue::to_str`: visible ASCII and HTAB only) Rust's `trim()` removes exactly OWS.
+pub proof fn lemma_trim_ws_is_ows(s: Seq<u8>)
+    requires is_visible(s)
+    ensures trim_b(s, is_ws()) == trim_b(s, is_ows()), is_visible(trim_b(s, is_ows())), is_ascii(trim_b(s, is_ows())), is_ascii(s),
+{
+    lemma_lead(s, is_ows(), 0); lemma_lead_eq(s, 0); lemma_trail_eq(s, s.len() as int, lead(s, is_ows(), 0));
+    lemma_trail(s, is_ows(), s.len() as int, lead(s, is_ows(), 0));
+}
+pub proof fn lemma_lead_eq(s: Seq<u8>, from: int)
+    requires is_visible(s), 0 <= from <= s.len()
+    ensures lead(s, is_ws(), from) == lead(s, is_ows(), from)
+    decreases s.len() - from
+{ if from < s.len() { assert((0x20u8 <= s[from] && s[from] < 0x7fu8) || s[from] == 0x09u8); if is_ows()(s[from]) { lemma_lead_eq(s, from + 1); } } }
+pub proof fn lemma_trail_eq(s: Seq<u8>, to: int, floor: int)
+    requires is_visible(s), 0 <= floor <= to <= s.len()
+    ensures trail(s, is_ws(), to, floor) == trail(s, is_ows(), to, floor)
+    decreases to - floor
+{ if floor < to { assert((0x20u8 <= s[to - 1] && s[to - 1] < 0x7fu8) || s[to - 1] == 0x09u8); if is_ows()(s[to - 1]) { lemma_trail_eq(s, to - 1, floor); } } }
+pub proof fn lemma_split_visible(s: Seq<u8>, sep: u8)
+    requires is_visible(s)
+    ensures forall|k: int| 0 <= k < split_b(s, sep).len() ==> is_visible(#[trigger] split_b(s, sep)[k]),
+    decreases s.len()
+{
+    lemma_first_at(s, 0, sep);
+    if let Some(q) = first_at(s, 0, sep) {
+        let rest = s.subrange(q + 1, s.len() as int);
+        lemma_split_visible(rest, sep);
+        assert forall|k: int| 0 <= k < split_b(s, sep).len() implies is_visible(#[trigger] split_b(s, sep)[k]) by {
+            if k > 0 { assert(split_b(s, sep)[k] == split_b(rest, sep)[k - 1]); }
+        }
     }
 }
 pub struct Prefs { pub gzip: Option<u16>, pub identity: Option<u16>, pub star: Option<u16> }
@@ -75,20 +170,20 @@ proof fn lemma_prefs_none(es: Seq<Str>, k: int, n: int)
     ensures prefs(es, n) is None
     decreases n - k
 { if k < n { lemma_prefs_none(es, k, n - 1); } }
-broadcast use qv::qvalue_range;
 
 //@fn src/lib.rs :: fn should_gzip props=C16,C17 implicit=C16 rules=R10i,STD
 #[verifier::loop_isolation(false)]
 pub fn should_gzip(headers: &HeaderMap) -> (r: bool)
     ensures /*@C16 #rfc7231_preference*/ r == should_gzip_s(headers),
 //@body
-//@ before "let mut it_ = parts;": let ghost es = sp_split(http::sp_to_str(v.bytes@).unwrap(), ',');
+//@ before "let mut it_ = parts;": let ghost es = sp_split(http::sp_to_str(v.bytes@).unwrap(), ','); proof { lemma_split_visible(v.bytes@, 0x2cu8); reveal_strlit("q="); }
 //@ loop 1: invariant it_.rest@.len() <= es.len(), it_.rest@ =~= es.subrange(es.len() - it_.rest@.len(), es.len() as int),
 //@ | /*@C16 #inv_preferences_so_far*/ prefs(es, es.len() - it_.rest@.len()) == Some(Prefs { gzip: gzip_q, identity: identity_q, star: star_q }),
 //@ | decreases it_.rest@.len(),
 //@ after "loop {": let ghost k0 = es.len() - it_.rest@.len(); proof { if it_.rest@.len() > 0 { assert(it_.rest@[0] == es[k0]); } }
 //@ before "return false;": proof { assert(prefs(es, k0 + 1) is None); lemma_prefs_none(es, k0 + 1, es.len() as int); }
-//@ after "else { break };": proof { assert(qi == es[k0]); assert(it_.rest@ =~= es.subrange(k0 + 1, es.len() as int)); }
+//@ after "else { break };": proof { assert(qi == es[k0]); assert(it_.rest@ =~= es.subrange(k0 + 1, es.len() as int)); assert(is_visible(split_b(v.bytes@, 0x2cu8)[k0])); lemma_trim_ws_is_ows(qi.b()); lemma_first_at(qi.b(), 0, 0x3bu8);
+//@ | if let Some(p) = first_at(qi.b(), 0, 0x3bu8) { let c0 = qi.b().subrange(0, p); let q0 = qi.b().subrange(p + 1, qi.b().len() as int); lemma_trim_ws_is_ows(c0); lemma_trim_ws_is_ows(q0); lemma_qv_extends_rfc(trim_b(q0, is_ows()).subrange(2, trim_b(q0, is_ows()).len() as int)); } }
 //@end
 
 //@auto_helpers src/lib.rs
